@@ -225,6 +225,9 @@ Definition run_c06 (x : sx) : sx :=
   match x with
   | SL [c; ord; SL init; SL ths; SL sched] => run_case c ord init ths sched []
   | SL [c; ord; SL init; SL ths; SL sched; SL nr] => run_case c ord init ths sched (map get_B nr)
+  (* a 7th field ( i kind m ) is a lock-scope probe for the implementation only: the model's steps are atomic,
+     so the steps i+1 .. i+m simply follow step i *)
+  | SL [c; ord; SL init; SL ths; SL sched; SL nr; _] => run_case c ord init ths sched (map get_B nr)
   | _ => err "bad case"
   end.
 
